@@ -292,6 +292,13 @@ def _dist_strategy(tier):
 
     @st.composite
     def cases(draw):
+        if draw(st.integers(0, 5)) == 0:
+            # a handful of easy samples next to 1e5-3e5 scored ones (fewer draws: each is expensive)
+            method, strat = draw(st.sampled_from([("replacement", None), ("dynamic", None), ("single_pass", None)]))
+            return dict(n=draw(st.sampled_from([120_000, 300_000])), m=draw(st.sampled_from([100_000, 250_000])),
+                        ep=draw(st.sampled_from([2, 3, 5])), en=draw(st.sampled_from([2, 4])),
+                        sc=draw(st.sampled_from(["pos", "neg"])), method=method, strat=strat,
+                        seed=draw(gen.RNG_SEED), K=100 if K <= 300 else 300, per_score=False)
         n, m = draw(st.integers(30, 140)), draw(st.integers(30, 140))
         ez = st.sampled_from([0, 0, 5, 20, 60])
         method, strat = draw(st.sampled_from([("replacement", None), ("single_pass", None),
@@ -331,10 +338,11 @@ def _dist_stats(case, seed, K):
         q = e_ / T
         # variance proxy of one sample's stratum size: binomial split of the population
         # (non-stratified) plus the Poisson/binomial spread of single-pass multiplicities
-        v = K * ((0.0 if case["strat"] == "by_label" else T * q * (1 - q)) + e_)
-        if v == 0:
-            if sz[j] != 0:
-                exceed.append(f"stratum {name}: expected 0, total {sz[j]}")
+        # (the multiplicity spread only concerns the scored strata; easy counts are binomial)
+        v = K * ((0.0 if case["strat"] == "by_label" else T * q * (1 - q)) + (e_ if j < 2 else 0.0))
+        if v == 0:  # deterministic stratum (stratified, or absent in the source)
+            if sz[j] != K * e_:
+                exceed.append(f"stratum {name}: expected exactly {e_} per sample, total {sz[j]} over K={K}")
             continue
         t = _bernstein(v)
         d = abs(sz[j] - K * e_)
@@ -343,7 +351,7 @@ def _dist_stats(case, seed, K):
             exceed.append(f"mean size of stratum {name} = {sz[j] / K:.4f}, source has {e_} "
                           f"(|sum-K*e|={d:.1f} > bound {t:.1f} over K={K})")
     t = _bernstein(1.3 * K)
-    for cnt, nm in ((cp, "positive"), (cn, "negative")):
+    for cnt, nm in ((cp, "positive"), (cn, "negative")) if case.get("per_score", True) else ():
         d = np.abs(cnt - K)
         worst = max(worst, float(d.max()) / t)
         if d.max() > t:
